@@ -127,28 +127,47 @@ class C07:
             ctx.bad("R07.2", self.file, "match_geometries", f"_select_matches({show(calls[0].term[2][0])[:40] if calls and calls[0].term[2] else ''})",
                     "the assignment is computed on something other than the filled affinity matrix", s.node.lineno)
         ys = s.yields
-        if len(ys) != 1:
-            ctx.undec("R07.5", site, f"{len(ys)} yields (expected 1)")
+        if not ys:
+            ctx.undec("R07.5", site, "no yield")
             return
-        y = ys[0]
-        t = y.term
-        if not (t[0] == "tuple" and len(t[1]) == 3):
-            ctx.undec("R07.5", site, f"yield is not a (source, target, affinity) triple: {show(t)[:60]}")
-            return
-        m1, m2, aff = t[1]
-        L = s.loops.get(y.loops[-1]) if y.loops else None
-        if L is None or L.iter != calls[0].term or m1 != ("sub", ("elem", L.id), ("const", 0)) or m2 != ("sub", ("elem", L.id), ("const", 1)) or L.conds:
-            ctx.bad("R07.5", self.file, "match_geometries", f"yield {show(t)[:70]}",
-                    "the yielded indices are not, in order, the (source, target) pair produced by _select_matches for every pair", y.lineno)
-            return
+        triples = []
+        for y in ys:
+            t = y.term
+            if not (t[0] == "tuple" and len(t[1]) == 3):
+                ctx.undec("R07.5", site, f"yield is not a (source, target, affinity) triple: {show(t)[:60]}")
+                return
+            m1, m2, aff = t[1]
+            L = s.loops.get(y.loops[-1]) if y.loops else None
+            if L is None or not calls or L.iter != calls[0].term or m1 != ("sub", ("elem", L.id), ("const", 0)) \
+                    or m2 != ("sub", ("elem", L.id), ("const", 1)) or L.conds or len({yy.loops for yy in ys}) != 1:
+                ctx.bad("R07.5", self.file, "match_geometries", f"yield {show(t)[:70]}",
+                        "the yielded indices are not, in order, the (source, target) pair produced by _select_matches for every pair", y.lineno)
+                return
+            triples.append((y, m1, m2, aff))
+        y0, m1, m2, _ = triples[0]
         cell = ("sub", mat, ("tuple", (m1, m2)))
         ok = True
+        from sa.sym import AND
         for v1 in (0, None):
             for v2 in (0, None):
                 if v1 is None and v2 is None:
                     continue
                 env = {("cmp", "isnot", m1, NONE): v1 is not None, ("cmp", "isnot", m2, NONE): v2 is not None,
                        ("cmp", "is", m1, NONE): v1 is None, ("cmp", "is", m2, NONE): v2 is None}
+                kind = 'two-sided' if v1 is not None and v2 is not None else 'one-sided'
+                taken = []
+                for y, _, _, aff in triples:
+                    lv = peval(AND(*[c for c in conjuncts(y.live) if c[0] != "inloop"]), env)
+                    if lv == ("const", False):
+                        continue
+                    taken.append((y, lv, aff))
+                if len(taken) != 1 or taken[0][1] != ("const", True):
+                    ok = False
+                    ctx.bad("R07.5", self.file, "match_geometries", f"{kind} entry: {len(taken)} yields",
+                            f"a {kind} entry produced by _select_matches is reported {len(taken)} times (each entry must be "
+                            f"reported exactly once)", y0.lineno, witness={"source_is_none": v1 is None, "target_is_none": v2 is None})
+                    continue
+                y, _, aff = taken[0]
                 got = peval(aff, env)
                 if v1 is not None and v2 is not None:
                     good = got in (cell, ("call", ("builtin", "float"), (cell,), ()))
@@ -157,11 +176,11 @@ class C07:
                 if not good:
                     ok = False
                     ctx.bad("R07.5", self.file, "match_geometries", f"affinity = {show(aff)[:80]}",
-                            f"for a {'two-sided' if v1 is not None and v2 is not None else 'one-sided'} entry the reported affinity is "
+                            f"for a {kind} entry the reported affinity is "
                             f"{show(got)[:60]} (must be {'the matrix cell of that pair' if v1 is not None and v2 is not None else '0'})",
                             y.lineno, witness={"source_is_none": v1 is None, "target_is_none": v2 is None})
         if ok:
-            ctx.ok("R07.5", f"{self.file}:{y.lineno} match_geometries", "affinity = cost_matrix[source, target] for pairs, 0.0 for one-sided entries")
+            ctx.ok("R07.5", f"{self.file}:{y0.lineno} match_geometries", "affinity = cost_matrix[source, target] for pairs, 0.0 for one-sided entries")
 
     # ------------------------------------------------------------------ R07.2 - R07.4
     def check_select(self, solver=True):
